@@ -171,7 +171,9 @@ class SublineStrategy(PageByStrategy):
             table_attrs=context.table_attrs,
             removed_column_indices=context.removed_column_indices,
             additional_rows_per_page=context.additional_rows_per_page,
-            new_page=True,
+            # A subline_by change always starts a new page (is_subline_start);
+            # page_by changes only do so when the body asks for new_page.
+            new_page=context.rtf_body.new_page,
             pageby_as_rows=not (
                 context.rtf_body.new_page and context.rtf_body.pageby_row == "column"
             ),
